@@ -31,10 +31,10 @@ ASSUMPTIONS = [
     "round-trip calibration (loads(dumps(doc)) == doc); cases they cannot carry are counted "
     "under oracle_unavailable",
     "NaN/Infinity are outside Double's declared default open range: not generated",
-    "bare methods are exercised with ignore_wrappers=True and complex_as=dict only: with wrapper "
-    "documents the key of a bare request would have to be the method name and the class name "
-    "of the argument at once (spyne's own serializer writes the class name, its method lookup "
-    "wants the method name), so no conformant request exists",
+    "bare methods with a single complex-object argument (or a complex return value) are exercised "
+    "with ignore_wrappers=True only: with wrapper documents the key of such a request would have to "
+    "be the method name and the class name of the argument at once, so no conformant request exists; "
+    "simple-typed and array arguments are exercised with both settings",
     "complex_as=list is exercised for fully populated objects only (a positional form cannot "
     "skip a member) and with ignore_wrappers=True",
 ]
@@ -51,10 +51,17 @@ def cases(tier):
         if prot == "msgpackrpc":
             wrappers = False
         styles = ("wrapped",)
-        if complex_as == "dict" and prot != "msgpackrpc" and not wrappers:
+        if complex_as == "dict" and prot != "msgpackrpc":
             # bare: the message is the single argument itself, keyed by the method name
             styles = ("wrapped", "wrapped", "wrapped", "bare")
         m = draw(spec.methods(U, name="m0", styles=(draw(st.sampled_from(styles)),), xml=False))
+        if m["style"] == "bare" and wrappers:
+            # with wrapper documents only a simple-typed or array argument has a conformant
+            # bare spelling (see ASSUMPTIONS); the reply of a bare method is not wrapped either
+            a0 = m["args"][0][1] if m["args"] else None
+            if a0 is None or (a0["k"] == "ref" and (a0.get("occ") or {}).get("max", 1) == 1) \
+                    or any(r["k"] == "ref" for r in m["ret"]):
+                wrappers = False
         # positional forms (complex_as=list, msgpack-rpc parameters) cannot omit a member
         vg = values.ValueGen(U, special_floats=False, nil_items=True,
                              full=(complex_as == "list" or prot == "msgpackrpc"))
